@@ -47,6 +47,12 @@ def configs(tier, seed):
     for v, code, name in (("TLS12", 0x009c, "TLS_RSA_WITH_AES_128_GCM_SHA256"), ("TLS10", 0x002f, "TLS_RSA_WITH_AES_128_CBC_SHA"), ("TLS11", 0x0005, "TLS_RSA_WITH_RC4_128_SHA")):
         out.append({"harness": "tls-meta", "name": "meta-%s-%04x-alert-then-data" % (v, code), "version": v, "suite": code, "suite_name": name, "records": 3, "max_len": 1,
                     "min_len": 1, "grouping": "separate", "alert_at": 1, "ipv": 4, "shape": "alert-then-data"})
+    # the byte streams cut without regard to record boundaries: several records per segment, records spanning segments
+    for v, code, name, extra in (("TLS12", 0x009c, "TLS_RSA_WITH_AES_128_GCM_SHA256", {}), ("TLS10", 0x002f, "TLS_RSA_WITH_AES_128_CBC_SHA", {"abbreviated": True, "sid_len": 32}),
+                                 ("TLS13", 0x1301, "TLS_AES_128_GCM_SHA256", {"compat_ccs": True, "sid_len": 32})):
+        for seg in ((40,) if tier == "quick" else (17, 40, 64)):
+            out.append({"harness": "tls-meta", "name": "meta-%s-%04x-stream-segments-%d" % (v, code, seg), "version": v, "suite": code, "suite_name": name, "records": 2,
+                        "max_len": 3, "min_len": 2, "grouping": "separate", "ipv": 4, "shape": "stream-segments", "stream_segments": True, "seg_size": seg, **extra})
     from tlv.harness import c02
     for c in c02.configs(tier, seed):
         if tier == "quick" and not (c["name"].endswith("cid8.4.8") or c["name"].endswith("cid8.0.8")):
@@ -65,6 +71,17 @@ def bounds(tier):
     b = c01.bounds(tier)
     b["note"] = "quick: one suite per (version, handshake shape, EtM); thorough: one suite per (version, cipher family, handshake shape, EtM, key-log label)"
     return b
+
+
+def _stream_groups(items):
+    """consecutive items of one direction form one byte stream (cut into segments without regard to record boundaries)"""
+    groups = []
+    for k, it in enumerate(items):
+        if groups and items[groups[-1][0]].from_server == it.from_server:
+            groups[-1].append(k)
+        else:
+            groups.append([k])
+    return groups
 
 
 def _chunks(out, ep):
@@ -157,7 +174,7 @@ def run_config(cfg):
         try:
             for meta_on in (False, True):
                 ep = P.Endpoint(ipv=cfg.get("ipv", 4))
-                frames = P.tcp_frames(ep, items)
+                frames = P.tcp_frames(ep, items, group=_stream_groups(items) if cfg.get("stream_segments") else None, seg_size=cfg.get("seg_size"))
                 out, sessions = P.run_tls(mods, frames, P.keylog_objects(mods, keylog), exp_meta=meta_on)
                 runs.append(_chunks(out, ep))
         except Exception as e:
@@ -173,7 +190,10 @@ def run_config(cfg):
                 i += 1
             else:
                 extras.append((d, load))
-        c.check(i == len(plain), "plain-packets-preserved-in-order", "%d of %d plain packets found in order in the -a output" % (i, len(plain)))
+        c.check(i == len(plain) and len(plain) >= 2, "plain-packets-preserved-in-order", "%d of %d plain packets found in order in the -a output" % (i, len(plain)))
+        if cfg.get("stream_segments"):
+            # handshake records cut over several segments are exported in as many pieces: only the application-data part is compared here
+            return {"outcome": "plain %d packets, -a %d packets" % (len(plain), len(meta_out))}
         material = []
         for it in items:
             if it.app is None:
@@ -225,7 +245,7 @@ def _concrete(cfg, inp):
     res = []
     for args in ((), ("-a",)):
         ep = P.Endpoint(ipv=cfg.get("ipv", 4))
-        pk = e2e.concrete_frames(ep, items)
+        pk = e2e.concrete_frames(ep, items, group=_stream_groups(items) if cfg.get("stream_segments") else None, seg_size=cfg.get("seg_size"))
         r = e2e.run_tlexport(pk, e2e.keylog_text(keylog), args=args)
         if r["problems"]:
             return {"ok": False, "problems": r["problems"][:3]}
@@ -242,6 +262,8 @@ def _concrete(cfg, inp):
             extras.append((side, data))
     if i != len(plain):
         problems.append("only %d of %d plain packets found in order in the -a output" % (i, len(plain)))
+    if cfg.get("stream_segments"):
+        return {"ok": not problems, "problems": problems}
     material = []
     for it in items:
         if it.app is None:
